@@ -8,7 +8,7 @@
 From Coq Require Import String.
 From XSG.Model Require Import Strings Convert Necessity Element Parser Dom Spec Render Lexer.
 From XSG.Proofs Require Import ElementProofs SkelProofs DomEquiv SpecProofs ReprDefs ExactProofs EventLevel
-  InferProofs UnionProofs AdmitProofs LexerProofs LexerC11 LexerEmpty LexerCData LexerSer LexerDoc.
+  InferProofs UnionProofs AdmitProofs LexerProofs LexerC11 LexerEmpty LexerCData LexerSer LexerDoc LexerUtf8 LexerWrite.
 
 (* the hypotheses are a boolean on the tree: plain valid names; attribute keys non-empty, plain,
    without `=`, valid UTF-8, pairwise distinct; a value does not contain its own quote (it may
@@ -136,6 +136,36 @@ Theorem C09_bytes_first_appearance : forall docs e,
        = dedup (flat_map okidnames (occs p (doc_roots (map abs_doc docs)))).
 Proof. exact bytes_C09_first_appearance. Qed.
 
+(* ---------- abstract documents written as bytes ---------- *)
+(* UTF-8: the encoder and the lexer model's `String::from_utf8` are inverse on scalar values *)
+Theorem LEX_utf8_decode_encode : forall x, forallb scalar x = true -> utf8_decode (utf8_encode x) = Some x.
+Proof. exact utf8_decode_encode. Qed.
+
+(* for EVERY abstract document with XML-like names (`dom_doc_ok`: names non-empty, of scalar values,
+   without blank, the two quotes, slash, equals and greater-than, not starting with ! or ?; no two text
+   nodes in a row; the document does not start with a text) and duplicate-free attribute lists
+   (`wf_node`), `write` produces a byte string on which the lexer model delivers its `events_of` *)
+Theorem LEX_write : forall d, Forall wf_node d -> dom_doc_ok d = true -> lex (write d) = events_of_forest d.
+Proof. exact lex_write. Qed.
+Theorem LEX_write_run : forall docs, Forall (Forall wf_node) docs -> forallb dom_doc_ok docs = true ->
+  run_bytes (map write docs) = of_opt (run_dom docs).
+Proof. exact run_bytes_write. Qed.
+Theorem C03_written_exact : forall docs,
+  docs_ok docs = true -> Forall (Forall wf_node) docs -> forallb dom_doc_ok docs = true ->
+  exists e, run_bytes (map write docs) = Ok e /\ infer docs = Some (sort_tree e).
+Proof. exact write_C03_exact. Qed.
+Theorem C11_written_structure_only : forall docs docs' o,
+  Forall (Forall wf_node) docs -> forallb dom_doc_ok docs = true ->
+  Forall (Forall wf_node) docs' -> forallb dom_doc_ok docs' = true ->
+  Forall2 same_structure docs docs' ->
+  render_outcome o (run_bytes (map write docs)) = render_outcome o (run_bytes (map write docs')).
+Proof. exact write_structure_only. Qed.
+Example LEX_example_write :
+  Forall wf_node ex_dom /\ dom_doc_ok ex_dom = true
+  /\ write ex_dom = s "<!----><r a="""" " ++ [195; 169; 226; 130; 172] ++ s "=""""" ++ s ">x<" ++ [208; 150; 120] ++ s " k=""""/><![CDATA[]]><x:y>x</x:y><!----></r><!---->"
+  /\ lex (write ex_dom) = events_of_forest ex_dom.
+Proof. exact example_write. Qed.
+
 Print Assumptions LEX_ser_node.
 Print Assumptions LEX_ser_start_tag.
 Print Assumptions LEX_ser_empty_tag.
@@ -155,3 +185,9 @@ Print Assumptions C06_bytes_order.
 Print Assumptions C06_bytes_idem.
 Print Assumptions C01_bytes_tree_admits.
 Print Assumptions C09_bytes_first_appearance.
+Print Assumptions LEX_utf8_decode_encode.
+Print Assumptions LEX_write.
+Print Assumptions LEX_write_run.
+Print Assumptions C03_written_exact.
+Print Assumptions C11_written_structure_only.
+Print Assumptions LEX_example_write.
